@@ -115,6 +115,8 @@ fn run_worker(page_pool: PagePool, command_rx: Receiver<IoPacket>) {
                 };
 
                 let complete = CompleteIo { command, result };
+                #[cfg(nomt_verif)]
+                crate::verif::on_complete(&complete);
                 let _ = completion_sender.send(complete);
             }
         } else if shutdown {
